@@ -192,7 +192,7 @@ impl AGeo {
 fn center_geo(cur: Point, center: Point, radii: Vector, sweep_angle: Angle, x_rotation: Angle, cmd_radii: Vector) -> AGeo {
     vh::guarded(|| {
         let v = Rotation::new(-x_rotation).transform_vector(cur - center);
-        let start_angle = vector(v.x / radii.x, v.y / radii.y).angle_from_x_axis();
+        let start_angle = Angle::radians((v.y / radii.y).atan2(v.x / radii.x));
         let arc = Arc { center, radii, start_angle, sweep_angle, x_rotation };
         let start = arc.from();
         let mut quads = Vec::new();
